@@ -247,6 +247,9 @@ def column_to_list(col):
         return [bytes(np.asarray(col.encoding.decode(row), dtype=np.uint8)).decode("latin-1").split("\t") for row in raw]
     if isinstance(col, EncodedArray) and type(col.encoding).__name__ == "_PhasedHaplotypeRowEncoding":
         return np.asarray(col.raw()).tolist()
+    if isinstance(col, EncodedArray) and type(col.encoding).__name__ == "StringEncoding":
+        labels = col.encoding.get_labels()
+        return [labels[int(i)] for i in np.atleast_1d(col.raw()).tolist()]
     if isinstance(col, EncodedArray):
         if col.ndim == 1:
             return list(col.to_string())
